@@ -89,9 +89,11 @@ func world(thorough bool) {
 	// the coinbase spend, and second submissions (a lagging peer relays a transaction again, possibly after it
 	// was confirmed): of one ordinary transaction and of the coinbase spend (thorough: of every transaction)
 	events = append(events, event{kind: "submit", tx: 4})
-	events = append(events, event{kind: "submit", tx: 0, again: true}, event{kind: "submit", tx: 4, again: true})
+	// (t2 is the child of the pooled-then-confirmed t1: its second submission meets whatever the pool's own output
+	// index kept of t1)
+	events = append(events, event{kind: "submit", tx: 0, again: true}, event{kind: "submit", tx: 4, again: true}, event{kind: "submit", tx: 1, again: true})
 	if thorough {
-		events = append(events, event{kind: "submit", tx: 1, again: true}, event{kind: "submit", tx: 2, again: true})
+		events = append(events, event{kind: "submit", tx: 2, again: true})
 	}
 	for i := 1; i < len(w.Blocks); i++ {
 		events = append(events, event{kind: "block", block: i})
@@ -218,7 +220,19 @@ func runHist(h []int, _ json.RawMessage) (out xplore.Out) {
 			ec = append(ec, fmt.Sprintf("err:t%d", i+1))
 		}
 	}
-	out.Digest = in.Digest() + "|" + strings.Join(pn, ",") + "|" + strings.Join(ec, ",")
+	// the pool's private indexes decide what later submissions meet: they are part of the state (a state that differs
+	// only in a stale index entry must not be merged with the clean one)
+	var idx []string
+	for o, t := range ps.Utxo {
+		idx = append(idx, o.String()[:8]+">"+t.String()[:8])
+	}
+	for o, hs := range ps.OrphansByPrev {
+		for _, h := range hs {
+			idx = append(idx, "w:"+o.String()[:8]+">"+h.String()[:8])
+		}
+	}
+	sort.Strings(idx)
+	out.Digest = in.Digest() + "|" + strings.Join(pn, ",") + "|" + strings.Join(ec, ",") + "|" + strings.Join(idx, ",")
 	out.Outcome = "pool=[" + strings.Join(pn, ",") + "]"
 	used := map[int]bool{}
 	for _, e := range h {
@@ -281,7 +295,7 @@ func main() {
 		all = append(all, i)
 	}
 	run.Set("events", describe(all))
-	run.Set("rule", "BFS over interleavings of transaction submissions (t2 child of t1, t4 conflicting with t1, t5 spending a coinbase output; second submissions of t1 and t5, thorough: of every transaction), in-order block deliveries of two branches confirming overlapping subsets, and three votes that justify the shorter branch (reorganisation back); states merged on node digest + pool/orphan/error-cache content; after every event: no pooled transaction is confirmed on the main chain, the TxMsgEvent stream pairs each MsgNewTx with at most one later MsgRemoveTx and agrees with the pool content")
+	run.Set("rule", "BFS over interleavings of transaction submissions (t2 child of t1, t4 conflicting with t1, t5 spending a coinbase output; second submissions of t1, t2 and t5, thorough: of every transaction), in-order block deliveries of two branches confirming overlapping subsets, and three votes that justify the shorter branch (reorganisation back); states merged on node digest + pool/orphan/error-cache content; after every event: no pooled transaction is confirmed on the main chain, the TxMsgEvent stream pairs each MsgNewTx with at most one later MsgRemoveTx and agrees with the pool content")
 	run.Assume("prelude of 16 blocks processed by the real node; OP_TRUE-style programs")
 	run.Finish()
 }
